@@ -27,6 +27,9 @@ def makeExpressionAbsolute(model_name, expression,connects,entity,dimensions):
             if name in dimensions.keys(): # ignore dimension names
                 pass
 
+            elif name.startswith(seperator): # ".name": a variable of the root model, whatever model the equation is in
+                expression["name"] = name[1:]
+
             elif not seperator in name:
                 expression["name"] = sanitizeName(model_name) + seperator + expression["name"] if len(model_name) > 0 else expression["name"]
 
